@@ -85,3 +85,7 @@ Definition response_ok (size : Z) (rng : range_hdr) (r : response) : bool :=
   | Unsatisfiable sz, R416 _ sz' => sz =? sz'
   | _, _ => false
   end.
+
+(* the conditional: 304 exactly when the file is not newer than If-Modified-Since (seconds) *)
+Definition not_modified (mtime : Z) (ims : option Z) : bool :=
+  match ims with Some t => mtime <=? t | None => false end.
